@@ -338,6 +338,9 @@ func (d *docSpec) expect() (exp Expect, class, dkey string) {
 				exp.SyncDeleted = append(exp.SyncDeleted, o.E.Path)
 			} else {
 				clean = false
+				if m.Kind == "sync" && o.RespBad {
+					exp.SyncNotDeleted = append(exp.SyncNotDeleted, o.E.Path)
+				}
 			}
 			if o.RespBad && m.Kind == "ms1" {
 				mustErr = "response with " + failClass(r.Status) + " status"
